@@ -72,7 +72,7 @@ def instances(tier):
         I("1x1x2-", "make", (s12, 1.0, -1), "1 battery behind 2 inverters, supply", budget_s=200, **kw),
         I("1x2x1+", "make", (s21, 1.0, 1), "2 batteries behind 1 inverter, consume", budget_s=200, **kw),
         I("3x(1x1)+soc", "make", (((1, 1),) * 3, 1.0, 1, False, False, (62.5, 68.75, 68.75)), "3 groups; SoC data concrete (headroom 37.5/31.25/31.25 %, capacity 1), so every "
-          "share is linear in the symbolic request and bounds (QF_LRA); all power bounds and the request symbolic (budgeted)", budget_s=100, exhaustive=False,
+          "share is linear in the symbolic request and bounds (QF_LRA); all power bounds and the request symbolic (budgeted)", budget_s=80, exhaustive=False,
           incremental=True, validate_every=200, timeout_ms=30000, decision_limit=120),
         I("2x(1x1)+", "make", (((1, 1), (1, 1)), 1.0, 1), "2 groups of 1 battery + 1 inverter, consume", budget_s=400, **kw),
         I("manager-1x1x1+", "make_manager", (((1, 1),), 1, True), "BatteryManager._distribute_power on the real distribution (all API calls succeed): "
@@ -80,7 +80,7 @@ def instances(tier):
         I("manager-1x1x1-", "make_manager", (((1, 1),), -1, True), "same, supply", budget_s=120, **kw),
         I("manager-1x1x2-", "make_manager", (((1, 2),), -1, True), "same, battery behind 2 inverters, supply", budget_s=200, **kw),
         I("(1x2|1x2)+wide", "make", (((1, 2), (1, 2)), 1.0, 1, False, True), "2 groups with 2 inverters each; batteries' own limits concrete and non-binding, "
-          "SoC and all inverter bounds symbolic (budgeted)", budget_s=100, exhaustive=False, **kw),
+          "SoC and all inverter bounds symbolic (budgeted)", budget_s=80, exhaustive=False, **kw),
     ]
     if tier == "quick":
         return out
